@@ -910,7 +910,74 @@ def _class_of_call(repo: Repo, view: FuncInfo, call: ast.Call):
     return ci
 
 
+def _iterator_stack_to_worklist(node: ast.AST) -> bool:
+    """A stack of iterators used as worklist,
+
+        W = [iter([root])]                         W = [root]
+        while W:                                   while W:
+            for n in W[-1]:                            n = W.pop()
+                if c(n): break              ->         if not c(n): continue
+            else:                                      BODY .. W.extend(children)
+                W.pop(); continue
+            BODY .. W.append(reversed(children))
+
+    hands out the same nodes with the same test `c`, in another order - which the model of a search does not talk about."""
+    changed = False
+    for loop in [n for n in ast.walk(node) if isinstance(n, ast.While)]:
+        if not (isinstance(loop.test, ast.Name) and loop.body and isinstance(loop.body[0], ast.For)):
+            continue
+        w = loop.test.id
+        f0 = loop.body[0]
+        it = f0.iter
+        if not (isinstance(f0.target, ast.Name) and isinstance(it, ast.Subscript) and isinstance(it.value, ast.Name) and it.value.id == w and isinstance(it.slice, ast.UnaryOp) and isinstance(it.slice.op, ast.USub) and isinstance(it.slice.operand, ast.Constant) and it.slice.operand.value == 1):
+            continue
+        if not (len(f0.body) == 1 and isinstance(f0.body[0], ast.If) and not f0.body[0].orelse and len(f0.body[0].body) == 1 and isinstance(f0.body[0].body[0], ast.Break)):
+            continue
+        oe = f0.orelse
+        if not (len(oe) == 2 and isinstance(oe[0], ast.Expr) and isinstance(oe[0].value, ast.Call) and isinstance(oe[0].value.func, ast.Attribute) and oe[0].value.func.attr == "pop" and isinstance(oe[0].value.func.value, ast.Name) and oe[0].value.func.value.id == w and not oe[0].value.args and isinstance(oe[1], ast.Continue)):
+            continue
+        # the initial stack: [iter(X)] / [X]
+        inits = [n for n in ast.walk(node) if isinstance(n, ast.Assign) and len(n.targets) == 1 and isinstance(n.targets[0], ast.Name) and n.targets[0].id == w]
+        if len(inits) != 1 or not (isinstance(inits[0].value, ast.List) and len(inits[0].value.elts) == 1):
+            continue
+        first = inits[0].value.elts[0]
+        if isinstance(first, ast.Call) and isinstance(first.func, ast.Name) and first.func.id in ("iter", "reversed") and len(first.args) == 1:
+            first = first.args[0]
+        pushes = [c for c in ast.walk(loop) if isinstance(c, ast.Call) and isinstance(c.func, ast.Attribute) and isinstance(c.func.value, ast.Name) and c.func.value.id == w and c.func.attr == "append" and len(c.args) == 1]
+        others = [c for c in ast.walk(node) if isinstance(c, ast.Call) and isinstance(c.func, ast.Attribute) and isinstance(c.func.value, ast.Name) and c.func.value.id == w and c.func.attr not in ("append", "pop")]
+        if others:
+            continue
+        inits[0].value = first if isinstance(first, (ast.List, ast.Tuple)) else ast.copy_location(ast.Call(func=ast.Name(id="list", ctx=ast.Load()), args=[first], keywords=[]), first)
+        for c in pushes:
+            c.func.attr = "extend"
+        pop = ast.copy_location(ast.Assign(targets=[ast.Name(id=f0.target.id, ctx=ast.Store())], value=ast.Call(func=ast.Attribute(value=ast.Name(id=w, ctx=ast.Load()), attr="pop", ctx=ast.Load()), args=[], keywords=[])), f0)
+        skip = ast.copy_location(ast.If(test=ast.copy_location(ast.UnaryOp(op=ast.Not(), operand=f0.body[0].test), f0), body=[ast.copy_location(ast.Continue(), f0)], orelse=[]), f0)
+        loop.body[0:1] = [pop, skip]
+        changed = True
+    if changed:
+        ast.fix_missing_locations(node)
+    return changed
+
+
 def _desugared_generator(f: FuncInfo) -> FuncInfo:
+    g = _desugared_generator0(f)
+    if isinstance(g.node, ast.Lambda):
+        return g
+    cached = g.__dict__.get("_unstacked")
+    if cached is not None:
+        return cached
+    node = _clone_src(g.node, g)
+    if not _iterator_stack_to_worklist(node):
+        g.__dict__["_unstacked"] = g
+        return g
+    set_parents(node)
+    h = FuncInfo(name=g.name, qualname=g.qualname, node=node, module=g.module, cls=g.cls, decorators=list(g.decorators), outer=g.outer)
+    g.__dict__["_unstacked"] = h
+    h.__dict__["_unstacked"] = h
+    return h
+
+
+def _desugared_generator0(f: FuncInfo) -> FuncInfo:
     """The generator with every `yield from X` statement written as the loop it stands for: `for v in XS: if c: yield e` for a
     generator expression / comprehension X, `for t in X: yield t` otherwise (X may be another generator helper, substituted in turn)."""
     if isinstance(f.node, ast.Lambda) or not any(isinstance(n, ast.YieldFrom) for n in own_nodes(f.node)):
